@@ -1,29 +1,35 @@
 #!/bin/bash
-# tools/seed_matrix.sh [jobs] [filter]: run every seeded change against the check of its property (quick tier) in its own
-# scratch worktree and record the outcome in seeded/RESULTS.json:
+# tools/seed_matrix.sh [workers] [filter]: run every seeded change against the check of its property (quick tier) in its own
+# scratch worktree of /repo and record the outcome in seeded/RESULTS.json:
 #   witness     = VIOLATION with a concrete failing input in the replay
 #   no-witness  = VIOLATION ... no-failing-input-found only
 #   missed      = exit 0 / no VIOLATION
-# Each run uses VERIF_REPO=<worktree>; coq/gen is regenerated from /repo at the end (./check --setup).
+# Each worker uses its own copy of /verif (rsync to /tmp/vm-<k>, removed afterwards) because runs against different
+# repositories would otherwise overwrite each other's coq/gen. Runs use VERIF_REPO=<worktree>; /repo is never touched.
 cd "$(dirname "$0")/.."
-J="${1:-1}"; F="${2:-}"   # keep 1: runs of different seeds share coq/gen
+J="${1:-4}"; F="${2:-}"
 OUT=/tmp/seedmatrix-$$; mkdir -p $OUT
-one() {
-  d="$1"; OUT="$2"
-  name=$(basename "$d"); pid=${name%%-*}
-  W=/tmp/sm-$name
-  git -C /repo worktree add -q "$W" HEAD 2>/dev/null || { echo "$name worktree-failed"; return; }
-  if ! git -C "$W" apply "$d/patch.diff" 2>/dev/null; then echo "$name does-not-apply" > $OUT/$name.res; git -C /repo worktree remove --force "$W"; return; fi
-  VERIF_REPO="$W" timeout 3000 ./check "$pid" --tier quick > $OUT/$name.log 2>&1; rc=$?
-  nv=$(grep -c '^VIOLATION' $OUT/$name.log); nw=$(grep '^VIOLATION' $OUT/$name.log | grep -vc 'no-failing-input-found')
-  if [ "$nv" = 0 ]; then r=missed; elif [ "$nw" = 0 ]; then r=no-witness; else r=witness; fi
-  echo "$r rc=$rc violations=$nv with_witness=$nw" > $OUT/$name.res
-  pkill -f "director $W" 2>/dev/null
-  git -C /repo worktree remove --force "$W"
-  echo "$name $r"
+ls -d seeded/C*${F}*/ | sed 's#/$##' > $OUT/all
+split -n r/$J -d $OUT/all $OUT/part-
+worker() {
+  k="$1"; OUT="$2"; V=/tmp/vm-$k
+  rsync -a --delete --exclude .git --exclude replays --exclude .cache /verif/ $V/
+  while read -r d; do
+    name=$(basename "$d"); pid=${name%%-*}; W=/tmp/sm-$name
+    git -C /repo worktree add -q "$W" HEAD 2>/dev/null || { echo "worktree-failed" > $OUT/$name.res; continue; }
+    if ! git -C "$W" apply "/verif/$d/patch.diff" 2>/dev/null; then echo "does-not-apply" > $OUT/$name.res; git -C /repo worktree remove --force "$W"; continue; fi
+    (cd $V && VERIF_REPO="$W" timeout 3000 ./check "$pid" --tier quick > $OUT/$name.log 2>&1); rc=$?
+    nv=$(grep -c '^VIOLATION' $OUT/$name.log); nw=$(grep '^VIOLATION' $OUT/$name.log | grep -vc 'no-failing-input-found')
+    if [ "$nv" = 0 ]; then r=missed; elif [ "$nw" = 0 ]; then r=no-witness; else r=witness; fi
+    echo "$r rc=$rc violations=$nv with_witness=$nw" > $OUT/$name.res
+    pkill -f "director $W" 2>/dev/null
+    git -C /repo worktree remove --force "$W"
+    echo "$name $r"
+  done < $OUT/part-0$k
+  rm -rf $V
 }
-export -f one
-ls -d seeded/C*${F}*/ | sed 's#/$##' | xargs -P "$J" -I{} bash -c "one {} $OUT"
+export -f worker
+seq 0 $((J-1)) | xargs -P "$J" -I{} bash -c "worker {} $OUT"
 /venv/bin/python - "$OUT" <<'PY'
 import sys, os, json, glob
 out = sys.argv[1]; res = {}
@@ -34,5 +40,5 @@ for f in glob.glob(out + "/*.res"):
 json.dump(res, open(p, "w"), indent=1, sort_keys=True)
 print({k: sum(1 for v in res.values() if v.startswith(k)) for k in ("witness", "no-witness", "missed", "does-not-apply")})
 PY
-./check --setup > /dev/null 2>&1
+mkdir -p /tmp/seedmatrix-last && cp $OUT/*.log /tmp/seedmatrix-last/ 2>/dev/null
 rm -rf $OUT
